@@ -210,18 +210,18 @@ WINDOWS = {
     "C05": _TIMED_S + ["drop-send-peer", "drop-send-close", "drop-recv-peer"],
     "C13": _TIMED_S + _TIMED_R,
     "C10": ["timed-send-close", "timed-recv-close", "slow-close", "repoll-recv-close", "repoll-send-close", "drop-recv-close", "drop-send-close", "park-close", "two-close"],
-    "C11": ["timed-send-disc", "timed-sendo-disc", "timed-recv-disc", "slow-disc", "repoll-recv-disc", "park-disc", "park-disc-r"],
+    "C11": ["timed-send-disc", "timed-sendo-disc", "timed-recv-disc", "slow-disc", "repoll-recv-disc", "park-disc", "park-disc-r", "park-disc-a", "park-disc-ra", "timed-send-disc-a"],
     "C04": ["repoll-recv-close", "repoll-recv-disc", "repoll-recv-peer", "timed-recv-peer", "timed-recv-close", "drop-recv-peer"],
     "C16": _REPOLL + ["stream-rewait"],
     "C15": _FDROP + ["repoll-recv-peer"],
     "C07": _FDROP + ["repoll-recv-peer", "repoll-send-peer", "timed-send-peer", "timed-recv-peer", "park-close", "park-disc"],
-    "C06": ["park-close", "park-disc", "park-disc-r", "repoll-recv-peer", "repoll-send-peer", "timed-send-peer", "timed-recv-peer", "slow-close", "stream-rewait"],
+    "C06": ["park-close", "park-disc", "park-disc-r", "park-disc-a", "park-disc-ra", "repoll-recv-peer", "repoll-send-peer", "timed-send-peer", "timed-recv-peer", "slow-close", "stream-rewait"],
     "C08": ["refill-race", "refill-race-t", "drain-race", "drain-grow"],
     "C02": ["refill-race", "refill-race-t", "drain-race"],
     "C03": ["observe", "refill-race", "drain-grow", "two-close", "drain-race"],
     "C19": ["drain-race", "drain-grow"],
     "C14": ["drain-grow", "refill-race", "timed-sendo-peer"],
-    "C09": ["repoll-recv-peer", "timed-recv-peer", "repoll-send-peer", "drop-send-peer"],
+    "C09": ["park-disc-a", "park-disc-ra", "timed-send-disc-a", "repoll-recv-peer", "timed-recv-peer", "repoll-send-peer", "drop-send-peer"],
     "C12": ["clone-close", "clone-close-r", "clone-drop", "two-close"],
 }
 
@@ -648,14 +648,16 @@ EXTRA_FILES = {
     "C03": ["Kanal/Sections.lean", "Kanal/SpecSections.lean"],
     # translated signal.rs / mutex.rs / spin_cond conform to SigM / MutexM (TieProto), and conformance is adequate (ProtoSim)
     "C07": ["Kanal/TieProto.lean", "Kanal/ProtoSim.lean", "Kanal/TiePaths.lean", "Kanal/Props/C07Pin.lean",   # + the futures are !Unpin
-            "Kanal/Own.lean", "Kanal/NoDangle.lean", "Kanal/TieDiscipline.lean"],     # one peer per popped signal, exactly once; no frame dies while its signal can be touched
+            "Kanal/Own.lean", "Kanal/NoDangle.lean", "Kanal/TieDiscipline.lean", "Kanal/WakerReg.lean"],     # one peer per popped signal, exactly once; no frame dies while its signal can be touched
     "C17": ["Kanal/TieProto.lean", "Kanal/ProtoSimMutex.lean", "Kanal/TiePaths.lean"],
-    "C13": ["Kanal/TieProto.lean", "Kanal/NoDangle.lean", "Kanal/TieDiscipline.lean"],            # wait_timeout / is_terminated; a timed call returns only unexposed
-    "C16": ["Kanal/TieProto.lean"],            # poll, will_wake, register_waker, the constructors (a signal starts LOCKED)
+    "C13": ["Kanal/TieProto.lean", "Kanal/NoDangle.lean", "Kanal/TieDiscipline.lean", "Kanal/Disp.lean"],   # + on Timeout the value is handed back or dropped once (Disp)            # wait_timeout / is_terminated; a timed call returns only unexposed
+    "C16": ["Kanal/TieProto.lean", "Kanal/WakerReg.lean"],   # + every Pending leaves this poll's waker registered; the slot is written only unexposed or listed-under-lock            # poll, will_wake, register_waker, the constructors (a signal starts LOCKED)
     "C15": ["Kanal/TieProto.lean", "Kanal/Props/C07Pin.lean", "Kanal/NoDangle.lean", "Kanal/TieDiscipline.lean"],   # async_blocking_wait in Drop; Drop is what un-registers a future: it cannot be moved before
     "C14": ["Kanal/Props/C14Fine.lean"],
+    "C01": ["Kanal/Disp.lean", "Kanal/Deliver.lean"],     # on the translated code: a sent value is disposed of exactly once; a value taken out of the channel is delivered exactly once
+    "C19": ["Kanal/Deliver.lean"],                         # drain_into: every value taken is pushed, the count is the number pushed
     "C04": ["Kanal/TiePtr.lean"],              # pointer.rs translated: its operation lists compute PtrM's functions for every size, memory and word
-    "C05": ["Kanal/TiePtr.lean"],              # … and a value passed by value is consumed exactly once (moved or bit-copied + forgotten)
+    "C05": ["Kanal/TiePtr.lean", "Kanal/Disp.lean", "Kanal/Deliver.lean"],              # … and a value passed by value is consumed exactly once (moved or bit-copied + forgotten)
     "C02": ["Kanal/Props/RealTime.lean"],      # real-time readings over executions: acceptance order in time, later value never taken first, drain order
     "C08": ["Kanal/Props/RealTime.lean"],      # at every instant of an execution: accepted-and-unblocked minus delivered <= n; rendezvous
     "C10": ["Kanal/Props/RealTime.lean"],      # after close has returned: nothing delivered, every later call answers closed       # realtime variants on the translated code: one tryLock, busy => not done, never waits   # interleaving machine: the logical state moves by whole critical sections = Chan functions
